@@ -167,6 +167,7 @@ func WorkerMain(engines map[string]func() Engine) {
 	states := map[string]bool{}
 	seenSig := map[string]bool{}
 	knownSeen := map[string]bool{}
+	violating := 0
 	for i := 0; i < *count; i++ {
 		if time.Since(start) > *deadline {
 			break
@@ -204,6 +205,10 @@ func WorkerMain(engines map[string]func() Engine) {
 		}
 		if res.Violation == nil {
 			continue
+		}
+		violating++
+		if violating > 12 {
+			break // the tree is clearly broken; enough witnesses
 		}
 		// Shrink, keeping the violation class.
 		class := res.Violation.Class
